@@ -153,6 +153,14 @@ class SparseDense(Dense_):
 
         self._values[key] = value
 
+    def __iadd__(self, values: Iterable[Any]) -> 'SparseDense':
+        #extend in place like a list does (e.g., Impute appends its indicator features)
+        for value in values:
+            if not (isinstance(value,(int,float)) and value == 0):
+                self._values[self._length] = value
+            self._length += 1
+        return self
+
     def __getitem__(self, key: int):
         key = key if key >= 0 else key+self._length
 
